@@ -147,7 +147,7 @@ def main(argv=None) -> int:
             print("   ", "ok " if o.ok else ("note" if o.note else "BAD"), o.rule, o.loc, o.site, "::", o.construct,
                   ("-- " + o.detail) if o.detail else "")
     for o in notes:
-        print(f"  note: {o.rule} {o.loc} {o.construct}: {o.detail}")
+        print(f"  {'UNDECIDED' if getattr(o, 'undecided', False) else 'note'}: {o.rule} {o.loc} {o.construct}: {o.detail}")
     for o in listed:
         print(f"KNOWN-FINDING: property={pid} {o.rule} {o.site}: {o.construct} -- {known_keys[o.key].get('what', o.detail)}")
     replay_dir = os.path.join(VERIF, "evidence", "replay")
@@ -204,12 +204,15 @@ def main(argv=None) -> int:
                 ],
                 "units": {**stats, **res},
                 "notes": [o.to_json() for o in notes][:20],
+                "undecided": sum(1 for o in notes if getattr(o, "undecided", False)),
+                "canonical_form": getattr(ctx.model, "canon_stats", {}),
                 "paths_enumerated": ctx.paths_enumerated,
                 "selftest": selftest,
                 "exhaustive": True,
                 "trusted_base": [
                     "CPython ast parser",
-                    "frozen supplement tables in sa/infer.py and sa/props.py",
+                    "frozen supplement tables in sa/infer.py and sa/props.py; sa/known_funcs.py (functions of the reference tree)",
+                    "the canonicalising rewrite sa/canon.py (each step behaviour-preserving under its stated side condition)",
                     "shape axioms: c in X._children => c._parent is X; nodes of T's index belong to T",
                     "user callbacks do not mutate the tree; data objects are not Nodes/Trees",
                 ],
